@@ -49,25 +49,28 @@ Definition cdecr (c : ctr) (i : nat) : ctr :=
     let n17 := if v =? 65536 then c17 c - 1 else c17 c in
     mkC 32 (upd_nth i ((v - 1) mod 4294967296) (cdat c)) n09 n17.
 
+(** both resize functions re-allocate with the narrowest storage that the
+    counters counts_09bit / counts_17bit allow (shrink16to8 / shrink32to16 /
+    shrink32to8 are called from expand() as well as from shrink()) *)
+Definition cnarrow (c : ctr) (d : list Z) : ctr :=
+  if cw c =? 8 then mkC 8 d (c09 c) (c17 c)
+  else if cw c =? 16 then
+    (if 0 <? c09 c then mkC 16 d (c09 c) (c17 c)
+     else mkC 8 (map (fun v => v mod 256) d) (c09 c) (c17 c))          (* shrink16to8 *)
+  else
+    (if 0 <? c17 c then mkC 32 d (c09 c) (c17 c)
+     else if 0 <? c09 c then mkC 16 (map (fun v => v mod 65536) d) (c09 c) (c17 c)  (* shrink32to16 *)
+     else mkC 8 (map (fun v => v mod 256) d) (c09 c) (c17 c)).         (* shrink32to8 *)
+
 (** expand(ns): new elements are zero *)
 Definition cexpand (c : ctr) (ns : nat) : ctr :=
   if (length (cdat c) <? ns)%nat
-  then mkC (cw c) (cdat c ++ repeat 0 (ns - length (cdat c))) (c09 c) (c17 c)
+  then cnarrow c (cdat c ++ repeat 0 (ns - length (cdat c)))
   else c.
 
-(** shrink(ns): truncate, narrowing the storage when the counters allow *)
+(** shrink(ns): truncate *)
 Definition cshrink (c : ctr) (ns : nat) : ctr :=
-  if (ns <? length (cdat c))%nat then
-    let d := firstn ns (cdat c) in
-    if cw c =? 8 then mkC 8 d (c09 c) (c17 c)
-    else if cw c =? 16 then
-      (if 0 <? c09 c then mkC 16 d (c09 c) (c17 c)
-       else mkC 8 (map (fun v => v mod 256) d) (c09 c) (c17 c))          (* shrink16to8 *)
-    else
-      (if 0 <? c17 c then mkC 32 d (c09 c) (c17 c)
-       else if 0 <? c09 c then mkC 16 (map (fun v => v mod 65536) d) (c09 c) (c17 c)  (* shrink32to16 *)
-       else mkC 8 (map (fun v => v mod 256) d) (c09 c) (c17 c))          (* shrink32to8 *)
-  else c.
+  if (ns <? length (cdat c))%nat then cnarrow c (firstn ns (cdat c)) else c.
 
 (** ** histories *)
 Inductive cop := CInc (i : nat) | CDec (i : nat) | CExp (ns : nat) | CShr (ns : nat).
